@@ -57,6 +57,7 @@ def kw_for(rng, method, allow_bad=True):
 
 
 CONTENT_CLASSES = ["plain", "multiline", "crlf", "cr", "bom", "nofinalnl", "empty", "multibyte", "large", "not_utf8"]
+HUGE_CLASSES = ["huge_crlf", "huge_mixed"]      # > 64 Ki characters: block-wise readers meet their block edges
 
 
 def make_content(rng, names, cls, tier):
@@ -77,6 +78,17 @@ def make_content(rng, names, cls, tier):
         unit = t + "\n" + "".join(rng.choice(["é", "λ", "日本", "😀", "ab1 ", "k=2 "]) for _ in range(20))
         target = rng.choice([9000, 17000]) if tier == "thorough" else rng.choice([600, 9000])
         t = (unit * (target // max(1, len(unit)) + 1))[:target]
+    if cls in HUGE_CLASSES:
+        # short lines of varying length, so that line ends fall on every residue of any block size
+        eol = "\r\n" if cls == "huge_crlf" else None
+        target = rng.choice([66000, 70000, 132000])
+        words = [t[:40] or "ab 12", "k=7", "é", "日本", "😀", "abc", "x", "42", "a b", ""]
+        parts, n = [], 0
+        while n < target:
+            w = rng.choice(words) + (eol or rng.choice(["\n", "\r\n", "\n", "\r"]))
+            parts.append(w)
+            n += len(w)
+        return "".join(parts).encode("utf-8")
     if cls == "not_utf8":
         # not a UTF-8 file: the property promises nothing for calls on it, but they must not change what
         # later calls on proper UTF-8 files return
@@ -111,6 +123,8 @@ def generate(run_seed, tier):
     paths = wl.sample(PATHS, nfiles)
     files, classes = {}, {}
     enabled_classes = wl.sample(CONTENT_CLASSES, wl.randint(2, 5))
+    if wl.random() < (0.025 if tier == "quick" else 0.06):
+        enabled_classes = [wl.choice(HUGE_CLASSES)]
     for p in paths:
         nver = 1 if wl.random() < 0.55 else wl.randint(2, 3)
         cls = wl.choice(enabled_classes)
